@@ -518,7 +518,7 @@ Proof.
       rewrite ?proj_add_drops, ?proj_kill, ?proj_pend, ?proj_reg_producer;
       (eapply shape_ext; [|apply Hs]); intros r0; reflexivity.
   - destruct (s_alive s) eqn:Ea; cbn [negb]; [|intros H; pinv H; same_tac].
-    destruct (N.eqb sent total); [intros H; pinv H; rewrite proj_kill; same_tac|].
+    destruct (N.eqb sent total); [intros H; pinv H; rewrite proj_add_drops, proj_kill; same_tac|].
     destruct (s_closed s) eqn:Ec; [intros H; pinv H; rewrite proj_add_drops, proj_kill; same_tac|].
     destruct (send_some rest s) as [[[s1 k] rest']|] eqn:Es;
       [|intros H; pinv H; rewrite proj_add_drops, proj_kill; same_tac].
